@@ -231,10 +231,10 @@ def classify_anomaly(sc, outs, fin, acceptable):
     if "put_a_cond1" in oks and "put_a_cond2" in oks:
         return "double-conditional-success"
     cond = [n for n in oks if n in ("put_a_cond1", "put_a_cond2", "del_a_cond")]
-    if len(cond) == 2:
+    if len(cond) >= 2:
         return "double-conditional-success"
-    if len(cond) == 1 and any(n in oks for n in ("put_a_uncond", "del_a")) and len(oks) == 2:
-        # a conditional op succeeded although the other op had already changed a
+    if len(cond) == 1 and any(n in oks for n in ("put_a_uncond", "del_a")):
+        # a conditional op succeeded although another op had already changed a
         return "conditional-op-succeeded-against-stale-etag"
     # lost update to a different resource: both ok, targets differ, one target unchanged
     targets = {"put_new_c": "c.ics", "put_new_d_same_uid": "d.ics", "put_a_cond1": "a.ics", "put_a_cond2": "a.ics", "put_a_uncond": "a.ics", "put_b": "b.ics", "del_a_cond": "a.ics", "del_a": "a.ics", "del_b": "b.ics"}
@@ -246,6 +246,18 @@ def classify_anomaly(sc, outs, fin, acceptable):
     return "not-serialisable/" + "+".join(sorted(names))
 
 
+def fsck_slug(text):
+    """first error line of git fsck, reduced to a mechanism slug (paths and ids removed)"""
+    import re
+    for ln in text.splitlines():
+        ln = ln.strip()
+        if ln.startswith(("fatal:", "error:", "missing", "broken", "dangling") ) or "error" in ln:
+            ln = re.sub(r"[0-9a-f]{40}", "", ln)
+            ln = re.sub(r"\S*/\S*", "", ln)
+            return re.sub(r"[^a-z]+", "-", ln.lower()).strip("-")[:60] or "unknown"
+    return "unknown"
+
+
 def integrity(sc, res, cfg, descr):
     if sc.backend == "vdir":
         return
@@ -253,7 +265,7 @@ def integrity(sc, res, cfg, descr):
     res.count("fsck_runs")
     tag = sc.backend
     if r.returncode != 0:
-        res.violation(f"{tag}/git-fsck-error-after-race", f"[{'+'.join(sc.ops)}] {descr}: {(r.stdout + r.stderr)[:300]}", {"config": cfg})
+        res.violation(f"{tag}/git-fsck-error-after-race/{fsck_slug(r.stdout + r.stderr)}", f"[{'+'.join(sc.ops)}] {descr}: {(r.stdout + r.stderr)[:300]}", {"config": cfg})
     r = subprocess.run(["git", "-C", sc.work, "rev-list", "--parents", "HEAD"], capture_output=True, text=True, env=sc.env, timeout=60)
     if r.returncode == 0:
         for ln in r.stdout.splitlines():
@@ -422,13 +434,13 @@ def run_http(args, res):
         for key, hs in replaced.items():
             # the same etag value can legitimately exist twice only if the same bytes were written twice (unique tokens: never)
             if len(hs) > 1:
-                res.violation(f"http/{args['backend']}/double-conditional-success", f"{len(hs)} conditional requests against {key[0]} with If-Match {key[1]} all succeeded: {[(x['c'], x['kind'], x['status']) for x in hs]}",
+                res.violation(f"{args['backend']}/double-conditional-success", "[HTTP stress] " + f"{len(hs)} conditional requests against {key[0]} with If-Match {key[1]} all succeeded: {[(x['c'], x['kind'], x['status']) for x in hs]}",
                               {"history": [x for x in hist if x["name"] == key[0]][-30:]})
         # (2) reads return only values that were written, and never go back in per-client time order past an acknowledged overwrite
         written = {h["tok"] for h in hist if h["tok"]}
         for h in hist:
             if h["seen"] and h["seen"] not in written:
-                res.violation(f"http/{args['backend']}/read-of-never-written-value", f"GET {h['name']} returned token {h['seen']}")
+                res.violation(f"{args['backend']}/read-of-never-written-value", "[HTTP stress] " + f"GET {h['name']} returned token {h['seen']}")
         for h in hist:
             if h["status"] and h["status"] >= 500:
                 res.count("http_5xx")
@@ -439,7 +451,7 @@ def run_http(args, res):
         fsp = w.fs_path(col)
         r = subprocess.run(["git", "-C", fsp, "fsck", "--connectivity-only"], capture_output=True, text=True, env=w._git_env(), timeout=120)
         if r.returncode != 0:
-            res.violation(f"http/{args['backend']}/git-fsck-error-after-stress", (r.stdout + r.stderr)[:300])
+            res.violation(f"{args['backend']}/git-fsck-error-after-race/{fsck_slug(r.stdout + r.stderr)}", "[HTTP stress] " + (r.stdout + r.stderr)[:300])
         res.seen("http", args["backend"], len(hist))
         res.seen("http2", args["backend"], len(replaced))
         res.sample({"config": {k: v for k, v in args.items()}, "history_head": hist[:8]})
